@@ -44,7 +44,7 @@ Proof.
   intros [v w t i] rest (Ht & Hi). cbn [cvc_ts cvc_inv] in *. unfold write_cvc, read_cvc.
   cbn [cvc_validator cvc_view cvc_ts cvc_inv]. rewrite <- !app_assoc. cbn [app].
   bstep ltac:(apply read_b_cons). bstep ltac:(apply read_b_cons). bstep ltac:(apply read_u8; exact Ht).
-  bstep ltac:(apply varbytes_roundtrip; lia). reflexivity.
+  (erewrite bind_ok; [|apply varbytes_roundtrip; lia]); cbv beta. reflexivity.
 Qed.
 
 Definition cc_wf (c : commit_compact) : Prop := length (cc_sig c) = 64%nat /\ Z.of_nat (length (cc_inv c)) <= 1024.
@@ -53,14 +53,14 @@ Proof.
   intros [w v s i] rest (Hs & Hi). cbn [cc_sig cc_inv] in *. unfold write_cc, read_cc.
   cbn [cc_view cc_validator cc_sig cc_inv]. rewrite <- !app_assoc. cbn [app].
   bstep ltac:(apply read_b_cons). bstep ltac:(apply read_b_cons). bstep ltac:(apply read_bytes_app; exact Hs).
-  bstep ltac:(apply varbytes_roundtrip; lia). reflexivity.
+  (erewrite bind_ok; [|apply varbytes_roundtrip; lia]); cbv beta. reflexivity.
 Qed.
 
 Definition pc_wf (c : prep_compact) : Prop := Z.of_nat (length (pc_inv c)) <= 1024.
 Theorem pc_decode_encode : codec_ok pc_wf write_pc read_pc.
 Proof.
-  intros [v i] rest Hi. cbn [pc_inv] in *. unfold write_pc, read_pc. cbn [pc_validator pc_inv]. cbn [app].
-  bstep ltac:(apply read_b_cons). bstep ltac:(apply varbytes_roundtrip; lia). reflexivity.
+  intros [v i] rest Hi. unfold pc_wf in Hi. cbn [pc_inv] in *. unfold write_pc, read_pc. cbn [pc_validator pc_inv]. cbn [app].
+  bstep ltac:(apply read_b_cons). (erewrite bind_ok; [|apply varbytes_roundtrip; lia]); cbv beta. reflexivity.
 Qed.
 
 (* ================= the embedded PrepareRequest message ================= *)
@@ -95,20 +95,20 @@ Proof.
   assert (forall n : nat, Z.of_nat n <= max_array -> Z.of_nat n < 2 ^ 64) as Hlt by (unfold max_array; lia).
   bstep ltac:(apply (array_roundtrip cvc_wf); [apply cvc_decode_encode|exact Hcv|exact Lcv|auto]).
   destruct req as [e|].
-  - destruct h; [contradiction|]. cbn [app]. bstep ltac:(apply read_b_cons). cbn [Z.eqb negb].
-    rewrite <- !app_assoc.
-    bstep ltac:(apply emb_decode_encode; exact Hr). cbn [fst snd].
+  - destruct h; [contradiction|]. cbn [app]. bstep ltac:(apply (read_bool_lax_write true)).
+    rewrite <- ?app_assoc.
+    bstep ltac:(erewrite bind_ok by (apply emb_decode_encode; exact Hr); reflexivity). cbn [fst snd].
     bstep ltac:(apply (array_roundtrip pc_wf); [apply pc_decode_encode|exact Hp|exact Lp|auto]).
     bstep ltac:(apply (array_roundtrip cc_wf); [apply cc_decode_encode|exact Hc|exact Lc|auto]).
     reflexivity.
-  - cbn [app]. bstep ltac:(apply read_b_cons). cbn [Z.eqb negb]. destruct h as [h|].
-    + rewrite <- !app_assoc.
-      bstep ltac:(apply varuint_roundtrip; unfold u64_ok; lia). cbn [Z.eqb Pos.eqb].
-      bstep ltac:(apply read_bytes_app; exact Hr). cbn [fst snd].
+  - cbn [app]. bstep ltac:(apply (read_bool_lax_write false)). destruct h as [h|].
+    + rewrite <- ?app_assoc.
+      bstep ltac:(erewrite bind_ok by (apply varuint_roundtrip; unfold u64_ok; lia); cbn [Z.eqb Pos.eqb];
+                  erewrite bind_ok by (apply read_bytes_app; exact Hr); reflexivity). cbn [fst snd].
       bstep ltac:(apply (array_roundtrip pc_wf); [apply pc_decode_encode|exact Hp|exact Lp|auto]).
       bstep ltac:(apply (array_roundtrip cc_wf); [apply cc_decode_encode|exact Hc|exact Lc|auto]).
       reflexivity.
-    + bstep ltac:(apply varuint_roundtrip; unfold u64_ok; lia). cbn [Z.eqb]. cbn [fst snd].
+    + bstep ltac:(erewrite bind_ok by (apply varuint_roundtrip; unfold u64_ok; lia); reflexivity). cbn [fst snd].
       bstep ltac:(apply (array_roundtrip pc_wf); [apply pc_decode_encode|exact Hp|exact Lp|auto]).
       bstep ltac:(apply (array_roundtrip cc_wf); [apply cc_decode_encode|exact Hc|exact Lc|auto]).
       reflexivity.
@@ -127,14 +127,11 @@ Definition body_wf (sr : bool) (b : body) : Prop :=
   end.
 Definition cmessage_wf (sr : bool) (m : cmessage) : Prop := u32_ok (g_index m) /\ body_wf sr (g_body m).
 
-Theorem cmessage_decode_encode sr : codec_ok (cmessage_wf sr) (write_cmessage sr) (read_cmessage sr).
+Lemma body_decode_encode sr b rest : body_wf sr b ->
+  read_body (fun s => s) sr (body_type b) (write_body sr b ++ rest) = Some (b, rest).
 Proof.
-  intros [i v w b] rest (Hi & Hb). cbn [g_index g_body] in *.
-  unfold write_cmessage, read_cmessage, read_cmessage_gen, write_head. cbn [g_index g_validator g_view g_body].
-  rewrite <- !app_assoc. cbn [app].
-  bstep ltac:(apply read_b_cons). bstep ltac:(apply read_u4; exact Hi).
-  bstep ltac:(apply read_b_cons). bstep ltac:(apply read_b_cons).
-  destruct b as [ts reason rej|q|h|s|ts|r]; cbn [body_type write_body read_body body_wf Z.eqb Pos.eqb] in *.
+  intros Hb.
+  destruct b as [ts reason rej|q|h|s|ts|r]; cbn [body_type write_body body_wf] in *; unfold read_body; cbn [Z.eqb Pos.eqb].
   - destruct Hb as (Ht & Hrej). rewrite <- !app_assoc. cbn [app].
     bstep ltac:(apply read_u8; exact Ht). bstep ltac:(apply read_b_cons).
     destruct (carries_hashes reason).
@@ -145,6 +142,16 @@ Proof.
   - bstep ltac:(apply read_bytes_app; exact Hb). reflexivity.
   - bstep ltac:(apply read_u8; exact Hb). reflexivity.
   - bstep ltac:(apply recovery_decode_encode; exact Hb). reflexivity.
+Qed.
+
+Theorem cmessage_decode_encode sr : codec_ok (cmessage_wf sr) (write_cmessage sr) (read_cmessage sr).
+Proof.
+  intros [i v w b] rest (Hi & Hb). cbn [g_index g_body] in *.
+  unfold write_cmessage, read_cmessage, read_cmessage_gen, write_head. cbn [g_index g_validator g_view g_body].
+  rewrite <- !app_assoc. cbn [app].
+  bstep ltac:(apply read_b_cons). bstep ltac:(apply read_u4; exact Hi).
+  bstep ltac:(apply read_b_cons). bstep ltac:(apply read_b_cons).
+  bstep ltac:(apply body_decode_encode; exact Hb). reflexivity.
 Qed.
 
 (* the statement per configuration value, as the property's sentence has it *)
@@ -163,29 +170,34 @@ Definition ex_recovery (root : list Z) : cmessage :=
   CMessage 100 3 0 (BRecovery (Recovery [] (Some (Emb 100 1 0 (ex_preq root))) None
                                         [PC 1 (repeat 9 66); PC 2 (repeat 8 66)] [CC 0 2 (repeat 5 64) (repeat 6 66)])).
 
+Lemma ex_hash32_wf k : hash_wf 32 (ex_hash32 k).
+Proof.
+  split; [unfold ex_hash32; now rewrite map_length, seq_length|].
+  unfold ex_hash32. apply Forall_forall. intros x Hx. apply in_map_iff in Hx as (i & <- & _). apply Z.mod_pos_bound. lia.
+Qed.
+
 Lemma ex_recovery_wf root : length root = 32%nat -> cmessage_wf true (ex_recovery root).
 Proof.
-  intros Hr. split; [unfold u32_ok; cbn; lia|]. cbn [ex_recovery g_body body_wf]. unfold recovery_wf.
-  cbn [r_cvs r_req r_hash r_preps r_commits]. unfold max_array.
-  repeat split; try (cbn; lia); try (repeat constructor; unfold pc_wf, cc_wf; cbn; lia).
-  - unfold u32_ok. cbn. lia.
-  - unfold u32_ok. cbn. lia.
-  - unfold u64_ok'. cbn. lia.
-  - unfold u64_ok'. cbn. lia.
-  - cbn. repeat constructor; vm_compute; split; [reflexivity|]. repeat constructor; lia.
-  - unfold max_tx_per_block. cbn. lia.
-  - exact Hr.
+  intros Hr. unfold cmessage_wf, ex_recovery. cbn [g_index g_body body_wf]. split; [unfold u32_ok; lia|].
+  unfold recovery_wf. cbn [r_cvs r_req r_hash r_preps r_commits]. unfold max_array.
+  split; [constructor|]. split; [cbn; lia|].
+  split; [constructor; [unfold pc_wf; cbn; lia|constructor; [unfold pc_wf; cbn; lia|constructor]]|]. split; [cbn; lia|].
+  split; [constructor; [unfold cc_wf; cbn; split; [reflexivity|lia]|constructor]|]. split; [cbn; lia|].
+  unfold emb_wf. cbn [e_index e_req]. split; [unfold u32_ok; lia|].
+  unfold preq_wf, ex_preq. cbn [q_version q_prev q_ts q_nonce q_hashes q_root].
+  split; [unfold u32_ok; lia|]. split; [apply ex_hash32_wf|]. split; [unfold u64_ok'; lia|]. split; [unfold u64_ok'; lia|].
+  split; [constructor; [apply ex_hash32_wf|constructor]|]. split; [unfold max_tx_per_block; cbn; lia|]. exact Hr.
 Qed.
 
 (* with a NON-ZERO root the payload the node has just encoded is refused; with the ZERO root it is accepted as
-   another message: every preparation and commit is gone (and 30 bytes are left unread) *)
+   another message: every preparation and commit is gone (30 bytes of the root and the whole lists are left unread: trailing bytes are not an error for Payload.decodeData) *)
 Example default_nested_examples :
   read_cmessage true (write_cmessage true (ex_recovery (ex_hash32 3))) = Some (ex_recovery (ex_hash32 3), [])
   /\ read_cmessage_default_nested true (write_cmessage true (ex_recovery (ex_hash32 3))) = None
   /\ read_cmessage true (write_cmessage true (ex_recovery zero32)) = Some (ex_recovery zero32, [])
   /\ (exists rest, read_cmessage_default_nested true (write_cmessage true (ex_recovery zero32))
         = Some (CMessage 100 3 0 (BRecovery (Recovery [] (Some (Emb 100 1 0 (ex_preq zero32))) None [] [])), rest)
-        /\ length rest = 125%nat).
+        /\ length rest = 301%nat).
 Proof.
   split; [vm_compute; reflexivity|]. split; [vm_compute; reflexivity|]. split; [vm_compute; reflexivity|].
   eexists. split; [vm_compute; reflexivity|]. reflexivity.
@@ -194,6 +206,6 @@ Qed.
 Theorem default_nested_refuted :
   ~ (forall sr, codec_ok (cmessage_wf sr) (write_cmessage sr) (read_cmessage_default_nested sr)).
 Proof.
-  intros H. specialize (H true (ex_recovery (ex_hash32 3)) [] (ex_recovery_wf _ eq_refl)).
+  intros H. specialize (H true (ex_recovery (ex_hash32 3)) [] (ex_recovery_wf (ex_hash32 3) (proj1 (ex_hash32_wf 3)))).
   rewrite app_nil_r in H. pose proof default_nested_examples as (_ & E & _). rewrite E in H. discriminate.
 Qed.
